@@ -16,6 +16,7 @@
 
 #include <stdint.h>
 #include <string.h>
+#include <ctype.h>
 #include <librdsparser_private.h>
 
 bool
@@ -29,6 +30,15 @@ rdsparser_utils_convert(const char        *input,
     const size_t rds_len = RDSPARSER_BLOCK_COUNT * block_string_length;
     const size_t input_len = strlen(input);
     char *end;
+
+    for (size_t i = 0; i < input_len; i++)
+    {
+        if (!isxdigit((unsigned char)input[i]))
+        {
+            /* strtol would accept white space, a sign or a 0x prefix */
+            return false;
+        }
+    }
 
     if (input_len == rds_len)
     {
